@@ -758,7 +758,8 @@ func (x *Exec) VerifyFunc(fn *ssa.Function, fc *FuncContract, name string) (obls
 		x.assumeAllocated(st, cv)
 		fr.Regs[fv] = &Value{Typ: fv.Type(), Ptr: &Pointer{Kind: PCell, Cell: c, Typ: el}}
 		fr.Params[fv.Name()] = cv
-		if _, ok := el.Underlying().(*types.Pointer); ok {
+		if _, ok := el.Underlying().(*types.Pointer); ok && capturedParam(fn, fv) {
+			// a captured pointer parameter of the enclosing function (non-nil like every pointer parameter)
 			st.assume(app("not", eq(x.term(cv), "0")))
 		}
 	}
@@ -1454,8 +1455,8 @@ func (x *Exec) havocLoop(st *State, fr *Frame, l *Loop) {
 			if old != nil && old.It != nil {
 				continue
 			}
-			if old != nil && (old.Fn != nil) {
-				continue // closures are assigned once
+			if old != nil && old.Fn != nil && assignedOnlyFn(al, old.Fn.Fn) {
+				continue // function variables that only ever hold this one function
 			}
 			nv := x.fresh(p.Cell.Name, p.Cell.Typ)
 			x.assumeTypeInv(st, nv)
@@ -1649,6 +1650,11 @@ func (x *Exec) atReturn(st *State, res []*Value, ins *ssa.Return) {
 	}
 	if x.fn.Name() == "init" || strings.HasPrefix(x.fn.Name(), "init#") {
 		for _, gi := range x.C.GlobalInvs {
+			// a fact about globals is established by the init function that mentions them directly
+			// (the package initialiser for facts about globals no init function mentions)
+			if !x.establishesGlobalFact(x.fn, gi) {
+				continue
+			}
 			g := x.evalBool(env, gi.Expr)
 			x.oblige(st, "global", gi.Label, gi.Props, g, gi.Where, gi.Src)
 		}
@@ -1807,6 +1813,16 @@ func (x *Exec) frameGoals(st *State, env *Env, fc *FuncContract, only map[string
 			}
 			ranges[hn] = append(ranges[hn], [3]string{arr, addT(off, lot), addT(off, hit)})
 		case *CIdent:
+			if _, bound := env.vars[e.Name]; bound || x.lookupLocal(env, e.Name) != nil {
+				// a map-typed variable: the entries of that map
+				mv := x.eval(&oldEnv, e)
+				if mv.Typ != nil {
+					if _, isMap := mv.Typ.Underlying().(*types.Map); isMap {
+						addContents(mv.Typ, x.term(mv))
+						continue
+					}
+				}
+			}
 			whole[e.Name] = true
 		}
 	}
@@ -1912,4 +1928,86 @@ func identsOf(e CExpr) []string {
 	}
 	walk(e)
 	return out
+}
+
+// assignedOnlyFn: every store to the local stores (a closure of) fn.
+func assignedOnlyFn(al *ssa.Alloc, fn *ssa.Function) bool {
+	refs := al.Referrers()
+	if refs == nil {
+		return false
+	}
+	for _, r := range *refs {
+		sto, ok := r.(*ssa.Store)
+		if !ok || sto.Addr != ssa.Value(al) {
+			continue
+		}
+		switch v := sto.Val.(type) {
+		case *ssa.MakeClosure:
+			if v.Fn != ssa.Value(fn) {
+				return false
+			}
+		case *ssa.Function:
+			if v != fn {
+				return false
+			}
+		default:
+			return false
+		}
+	}
+	return true
+}
+
+// directGlobals: names of the package-level variables an init function mentions in its own body.
+func directGlobals(f *ssa.Function) map[string]bool {
+	m := map[string]bool{}
+	for _, b := range f.Blocks {
+		for _, ins := range b.Instrs {
+			var ops []*ssa.Value
+			for _, op := range ins.Operands(ops) {
+				if op != nil && *op != nil {
+					if gl, ok := (*op).(*ssa.Global); ok {
+						m[gl.Name()] = true
+					}
+				}
+			}
+		}
+	}
+	return m
+}
+
+func (x *Exec) establishesGlobalFact(fn *ssa.Function, gi *GlobalInv) bool {
+	ids := identsOf(gi.Expr)
+	mine := directGlobals(fn)
+	for _, id := range ids {
+		if mine[id] {
+			return true
+		}
+	}
+	if fn.Name() != "init" {
+		return false
+	}
+	// nobody mentions them: the package initialiser answers for the zero values
+	for _, f := range x.P.All {
+		if f.Pkg != fn.Pkg || f == fn || !(f.Name() == "init" || strings.HasPrefix(f.Name(), "init#")) {
+			continue
+		}
+		other := directGlobals(f)
+		for _, id := range ids {
+			if other[id] {
+				return false
+			}
+		}
+	}
+	return true
+}
+
+func capturedParam(fn *ssa.Function, fv *ssa.FreeVar) bool {
+	for p := fn.Parent(); p != nil; p = p.Parent() {
+		for _, q := range p.Params {
+			if q.Name() == fv.Name() {
+				return true
+			}
+		}
+	}
+	return false
 }
